@@ -481,6 +481,8 @@ class Parser:
             return True
         if self._current_token.token_type.is_executable():
             return True
+        if self._current_token.is_mark('['):
+            return True
         return self._current_token.is_any(TokenTypes.BEGIN, TokenTypes.WITH)
 
     def _macro_definition(self, name):
